@@ -73,5 +73,82 @@ let vec_mode () =
     done
   with End_of_file -> ()
 
+(* ---- generated modules: "<configs separated by ,>" on the command line, histories on stdin ---- *)
+let rec int_of_nat = function O -> 0 | S n -> 1 + int_of_nat n
+let sn = string_of_int
+let nat_s n = sn (int_of_nat n)
+let b01 b = if b then "1" else "0"
+let sname_s = function
+  | NUnpacked v -> "U" ^ nat_s v | NUnpackedUninit v -> "UU" ^ nat_s v | NUnpackedUninitSafe v -> "US" ^ nat_s v
+  | NUnpackedIn v -> "UI" ^ nat_s v | NUnpackedUninitIn v -> "UUI" ^ nat_s v | NUnpackedUninitSafeIn v -> "USI" ^ nat_s v
+  | NAndOut v -> "AO" ^ nat_s v | NCapped v -> "C" ^ nat_s v
+let list_s f l = String.concat "," (List.map f l)
+let src_s = function SFrom -> "from" | SPlus -> "plus"
+let stmt_s = function
+  | SNewBuf m -> "newbuf(" ^ b01 m ^ ")"
+  | SWrite (off, s, f) -> "write(" ^ string_of_n off ^ "," ^ src_s s ^ "," ^ nat_s f ^ ")"
+  | SRead (u, f, t, off, o) ->
+      "read(" ^ b01 u ^ "," ^ nat_s f ^ "," ^ nat_s t ^ "," ^ string_of_n off ^ "," ^ (match o with OSelf -> "self" | OFrom -> "from") ^ ")"
+  | SForgetSelf -> "forget"
+  | SManuallyDrop -> "mdrop"
+  | SCopyBuf m -> "copybuf(" ^ b01 m ^ ")"
+  | SSafeFrom (s, used, safe, typed) -> "safefrom(" ^ src_s s ^ "," ^ b01 used ^ "," ^ sname_s safe ^ ",[" ^ list_s nat_s typed ^ "])"
+  | SRetSelf -> "retself"
+  | SRetUnpacked (n, fs) -> "retunpacked(" ^ sname_s n ^ ",[" ^ list_s nat_s fs ^ "])"
+  | SLetRecord v -> "letrecord(C" ^ nat_s v ^ ")"
+  | SRetAndOut (v, fs) -> "retandout(AO" ^ nat_s v ^ ",[" ^ list_s nat_s fs ^ "])"
+let body_s b = "B[" ^ String.concat ";" (List.map stmt_s b) ^ "]"
+let item_s = function
+  | IMaxSize n -> "MAXSIZE " ^ string_of_n n
+  | IUninitStruct a -> "UNINIT " ^ string_of_n a
+  | IDataStruct (name, public, g, fields) ->
+      "STRUCT " ^ sname_s name ^ (if public then " pub" else " priv") ^ " G[" ^ list_s nat_s g ^ "] F["
+      ^ list_s (fun (n, ft) -> nat_s n ^ ":" ^ (match ft with FPlain t -> "P" ^ nat_s t | FPhantom i -> "H" ^ nat_s i)) fields ^ "]"
+  | ISafeFromImpl (safe, g, unsafe_name, used, inits) ->
+      "SAFEFROM " ^ sname_s safe ^ " G[" ^ list_s nat_s g ^ "] from=" ^ sname_s unsafe_name ^ " used=" ^ b01 used ^ " I["
+      ^ list_s (fun (n, b) -> nat_s n ^ ":" ^ b01 b) inits ^ "]"
+  | IRecordStruct (v, a) -> "RECORD " ^ nat_s v ^ " " ^ string_of_n a
+  | IAlias v -> "ALIAS " ^ nat_s v
+  | INew (v, uninit, used, body) -> "NEW " ^ nat_s v ^ " uninit=" ^ b01 uninit ^ " used=" ^ b01 used ^ " " ^ body_s body
+  | IUnpack (v, body) -> "UNPACK " ^ nat_s v ^ " " ^ body_s body
+  | IGet (v, f, t, off, m) -> "GET " ^ nat_s v ^ " " ^ nat_s f ^ " " ^ nat_s t ^ " " ^ string_of_n off ^ " " ^ b01 m
+  | IDrop (v, body) -> "DROP " ^ nat_s v ^ " " ^ body_s body
+  | IFromUnpacked (v, u) -> "FROMUNPACKED " ^ nat_s v ^ " " ^ b01 u
+  | IOutStruct (v, fields) -> "OUT " ^ nat_s v ^ " F[" ^ list_s (fun (n, t) -> nat_s n ^ ":" ^ nat_s t) fields ^ "]"
+  | IConv (v, prev, uninit, andout, used, body) ->
+      "CONV " ^ nat_s v ^ " " ^ nat_s prev ^ " uninit=" ^ b01 uninit ^ " andout=" ^ b01 andout ^ " plusused=" ^ b01 used ^ " " ^ body_s body
+  | IClone (v, fields) -> "CLONE " ^ nat_s v ^ " F[" ^ list_s (fun (n, c) -> nat_s n ^ ":" ^ b01 c) fields ^ "]"
+  | ISerialize (v, fields) -> "SER " ^ nat_s v ^ " F[" ^ list_s nat_s fields ^ "]"
+  | IDeserialize (v, fields) -> "DE " ^ nat_s v ^ " F[" ^ list_s (fun (n, t) -> nat_s n ^ ":" ^ nat_s t) fields ^ "]"
+  | IAssertSize (t, n) -> "ASIZE " ^ nat_s t ^ " " ^ string_of_n n
+  | IAssertAlign (t, n) -> "AALIGN " ^ nat_s t ^ " " ^ string_of_n n
+
+let cfg_of_string s =
+  List.filter_map (fun c -> match c with 'c' -> Some FClone | 's' -> Some FSerde | _ -> None)
+    (List.init (String.length s) (String.get s))
+
+let gen_mode cfgs =
+  let k = ref 0 in
+  try
+    while true do
+      let line = String.trim (input_line stdin) in
+      if line <> "" && line.[0] <> '#' then begin
+        let toks = List.filter (fun s -> s <> "") (String.split_on_char ' ' line) in
+        let h = List.map parse_req toks in
+        List.iter (fun cs ->
+          let label = string_of_int !k ^ "/" ^ cs in
+          match gen_of_history h (cfg_of_string cs) with
+          | None -> print_endline ("== " ^ label ^ " NODEF")
+          | Some None -> print_endline ("== " ^ label ^ " PANIC")
+          | Some (Some items) ->
+              print_endline ("== " ^ label ^ " OK");
+              List.iter (fun i -> print_endline (item_s i)) items) cfgs;
+        incr k
+      end
+    done
+  with End_of_file -> ()
+
 let () =
-  if Array.length Sys.argv > 1 && Sys.argv.(1) = "vec" then vec_mode () else builder_mode ()
+  if Array.length Sys.argv > 1 && Sys.argv.(1) = "vec" then vec_mode ()
+  else if Array.length Sys.argv > 2 && Sys.argv.(1) = "gen" then gen_mode (String.split_on_char ',' Sys.argv.(2))
+  else builder_mode ()
